@@ -51,7 +51,8 @@ type w = map[string]interface{}
 
 const cookie = 0x37c0ffee
 
-var payloads = map[string][]byte{"a": []byte("aaa"), "b": []byte("bbbbbbbbbbb")}
+// a and c have the same stored size (an overwrite a->c changes the bytes but not the size); b is longer
+var payloads = map[string][]byte{"a": []byte("aaa"), "b": []byte("bbbbbbbbbbb"), "c": []byte("ccc")}
 
 // ---- the system -------------------------------------------------------------------
 
@@ -59,7 +60,8 @@ type sys struct {
 	r    *mc.Run
 	c    *cluster.Cluster
 	keys int
-	pls  []string // payload names in the alphabet
+	pls  []string // payload names in the alphabet (for every key)
+	xev  []string // extra write events (a payload restricted to one key, e.g. "w1c")
 
 	vid     uint32
 	n       *int64 // instance counter shared by every sys on this cluster
@@ -97,6 +99,7 @@ func (s *sys) Events() []string {
 			ev = append(ev, fmt.Sprintf("w%d%s", k, p))
 		}
 	}
+	ev = append(ev, s.xev...)
 	for k := 1; k <= s.keys; k++ {
 		ev = append(ev, fmt.Sprintf("d%d", k))
 	}
@@ -398,14 +401,14 @@ type witness struct {
 	Events []string `json:"events"`
 }
 
-func newSys(r *mc.Run, keys int, pls []string) *sys {
+func newSys(r *mc.Run, keys int, pls []string, xev ...string) *sys {
 	c := cluster.MustNew(cluster.Options{MaxVolumesPerServer: 1000000})
-	return &sys{r: r, c: c, keys: keys, pls: pls, n: new(int64)}
+	return &sys{r: r, c: c, keys: keys, pls: pls, xev: xev, n: new(int64)}
 }
 
 // replay runs a history on its own instance (its own source volume and backup dir) of the same cluster.
 func replay(s0 *sys, events []string) string {
-	s := &sys{r: s0.r, c: s0.c, keys: s0.keys, pls: s0.pls, n: s0.n}
+	s := &sys{r: s0.r, c: s0.c, keys: s0.keys, pls: s0.pls, xev: s0.xev, n: s0.n}
 	s.Reset()
 	defer s.Close()
 	for _, ev := range events {
@@ -437,15 +440,17 @@ func run(r *mc.Run) {
 	type pass struct {
 		keys   int
 		pls    []string
+		xev    []string
 		d0, d1 int
 	}
-	passes := []pass{{2, []string{"a"}, 3, 5}}
+	// "w1c": key 1 can be overwritten with different bytes of the same stored size
+	passes := []pass{{2, []string{"a"}, []string{"w1c"}, 3, 5}}
 	if r.Thorough() {
-		passes = []pass{{2, []string{"a", "b"}, 3, 6}, {3, []string{"a"}, 2, 5}}
+		passes = []pass{{2, []string{"a", "b"}, []string{"w1c"}, 3, 5}, {2, []string{"a", "b"}, nil, 3, 6}, {3, []string{"a"}, nil, 2, 5}}
 	}
 	seenClass := map[string]int{}
 	for _, p := range passes {
-		s := newSys(r, p.keys, p.pls)
+		s := newSys(r, p.keys, p.pls, p.xev...)
 		res := bfs(r, s, p.d0, p.d1, func(path []string, msg string) {
 			class, m := split(msg)
 			r.Distinct("violation|" + class)
@@ -464,7 +469,7 @@ func run(r *mc.Run) {
 		r.AddStates(res.States)
 		r.AddTransitions(res.Transitions)
 		r.Cases(res.Transitions)
-		r.Set(fmt.Sprintf("pass_keys%d_payloads%d", p.keys, len(p.pls)), w{"unmerged_depth": p.d0, "max_depth": res.MaxDepth, "target_depth": p.d1, "states": res.States, "transitions": res.Transitions})
+		r.Set(fmt.Sprintf("pass_keys%d_payloads%d_extra%d_depth%d", p.keys, len(p.pls), len(p.xev), p.d1), w{"unmerged_depth": p.d0, "max_depth": res.MaxDepth, "target_depth": p.d1, "states": res.States, "transitions": res.Transitions})
 		if !res.Complete {
 			r.NotExhaustive(fmt.Sprintf("keys=%d: time budget reached after depth %d of %d", p.keys, res.MaxDepth, p.d1))
 		}
@@ -484,7 +489,7 @@ func bfs(r *mc.Run, s0 *sys, d0, d1 int, onViolation func(path []string, msg str
 	pool := make(chan *sys, workers)
 	var all []*sys
 	for i := 0; i < workers; i++ {
-		ws := newSys(r, s0.keys, s0.pls)
+		ws := newSys(r, s0.keys, s0.pls, s0.xev...)
 		all = append(all, ws)
 		pool <- ws
 	}
